@@ -1,6 +1,8 @@
 import RasnModel.Basic.Sexp
 import RasnModel.Gen.Names
 import RasnModel.Spec.RustIdent
+import RasnModel.Lexer.Names
+import RasnModel.Extracted.Names
 /- line-protocol handler for C16 -/
 namespace Driver.C16
 open Sexp Gen.Names Spec.Ident
@@ -29,6 +31,22 @@ def handle : List Sexp → String
       let recoverable := !wantsAnn || (obs == name || ann == some name)
       s!"{(ofChars model).toStr} {(ofOpt ofChars modelAnn).toStr} {b legal} {b recoverable} {b (decide (Asn1Ident name))}"
     | _, _, _, _ => "bad-request"
+  | _ => "bad-request"
+
+/-- `scanname <kind> <text>` ↦ `<name> <bytes consumed>` | `none`: the lexer's name scanners
+    (0 = type_reference, 1 = identifier, 2 = value_reference) -/
+def handleScan : List Sexp → String
+  | [.atom kind, text] =>
+    match asChars text with
+    | some inp =>
+      let r := match kind with
+        | "0" => Lexer.Names.typeReference Extracted.Names.asn1Keywords inp
+        | "1" => Lexer.Names.identifier inp
+        | _ => Lexer.Names.valueReference inp
+      match r with
+      | some (n, _) => s!"{(ofChars n).toStr} {(String.ofList n).utf8ByteSize}"
+      | none => "none"
+    | none => "bad-request"
   | _ => "bad-request"
 
 end Driver.C16
